@@ -217,3 +217,5 @@ for g in (RB,AP): shutil.copy('/repo/'+g, M+'/repo/'+g)
 #   VIOLATION errclose-hang, replay {"kind":"errclose","side":"server-play","transport":"tcp","action":"PAUSE","order":"during"};
 #   E2 the same in client.go -> errclose-hang {"side":"client-play","action":"PAUSE","order":"during"};
 #   both also flip the facts session/clientOnErrorGivesUpOnProcessorCtx.
+# Refused-request slip: R1 Client.doPause non-200 branch re-creates the queue without startWriter() ->
+#   VIOLATION owner-consumer-count, replay {"side":"client-play-back","transport":"tcp","seq":["PLAY","PAUSE"],"outcomes":["","refuse"]}
